@@ -274,7 +274,19 @@ def check_font(ctx, res, case, out, pngs=None):
         side = 10 + 8 * i
         try:
             if pngs is not None:
-                continue  # bitmap identity is C14's job; reaching a unique glyph is checked above
+                # placement of the bitmap is C14's job; here: the glyph reached carries THIS source's image at all (names kept or stripped)
+                images = {}
+                if "CBDT" in font:
+                    for sd in font["CBDT"].strikeData:
+                        images.update({nm: bytes(gl.imageData) for nm, gl in sd.items()})
+                elif "sbix" in font:
+                    for strike in font["sbix"].strikes.values():
+                        images.update({nm: bytes(gl.imageData) for nm, gl in strike.glyphs.items() if gl.imageData})
+                want_png = bytes(out["pngs"][i]) if "pngs" in out else None
+                if images.get(g) is None or (want_png is not None and images[g] != want_png):
+                    res.add_cex("the glyph reached from a source's codepoints carries no bitmap / another source's bitmap",
+                                {"case": case, "i": i, "glyph": g, "glyphs_with_images": sorted(images)[:12]}, dict(site("artwork"), i=i))
+                continue
             sc = H / vbh
             cx = (2 + side / 2) * sc + (adv - sc * vbw) / 2
             cy = cfg.ascender - (2 + side / 2) * sc
